@@ -224,11 +224,18 @@ fn build_side(case: &Case, prepop: &Prepop, log: CallLog, relative_root: bool) -
     } else {
         build_fs(&case.under, &mut scratch)?
     };
-    let plain = plain_root(&fs);
-    let recorded = VfsPath::new(RecFS { inner: fs, layer: 0, log });
+    let mut fs = fs;
+    let mut plain = plain_root(&fs);
     for (_, p, n) in prepop {
         write_entry(&plain, p, n)?;
     }
+    // every other overlay underlying gets one more (empty, in-memory) upper layer AFTER the content
+    // was written: everything pre-populated then lives only in lower layers of the underlying
+    if case.under.contains_overlay() && case.prepop.len() % 2 == 0 {
+        fs = Arc::new(vfs::OverlayFS::new(&[VfsPath::new(vfs::MemoryFS::new()), plain.clone()]));
+        plain = plain_root(&fs);
+    }
+    let recorded = VfsPath::new(RecFS { inner: fs, layer: 0, log });
     Ok(Side { plain, recorded, scratch })
 }
 
@@ -682,7 +689,7 @@ pub fn replay(v: &Value) -> CaseResult {
     test(&case, &mut st, false)
 }
 
-const RULE: &str = "underlying U in {Mem, Phys, Overlay[..], Overlay on sub-paths} pre-populated inside and outside P; P = 0..3 components drawn from the case's own name pool (so that children named like P occur), optionally an altroot of an altroot, or no altroot at all (backend root used directly); a plain PhysicalFS underlying is built from a RELATIVE root path ('../<dir>/jail/root') in half of the cases while its twin uses the absolute path; create sessions are now and then held open and the underlying filesystem inspected meanwhile; read handles opened before a mutating call on their file and read afterwards must deliver what a handle on P/q delivers; copies of a source whose modification time was set to 2001 must be as recent as the twin's copy; copy_file / move_file / copy_dir out of the altroot into an unrelated MemoryFS and copy_file from there into the altroot, the twin doing the same on P/q (same outcome, same other filesystem, same underlying tree); typed C01 ops whose path arguments are join()ed from hostile strings ('../'-climbs, absolute restarts, detours, backslashes, '%2e', names glued to '..', P's own name); oracles: (1) twin instance U' receives the call on P/q (q by the independent reference resolver): same outcome class/value and identical WHOLE underlying snapshots after every step, and the altroot view equals the subtree below P; and metadata(q) of every entry of the view, its root included, equal to metadata(P/q) of the underlying filesystem in type, length and all three timestamps; (2) a recorder between altroot and U: every trait call's path lies in P (exists/metadata on proper ancestors of P tolerated and counted); (3) OS jail around every PhysicalFS root (sentinel sibling, parent, cwd, '/') unchanged; non-trivial = >=1 mutating op issued through a hostile argument while content exists next to P";
+const RULE: &str = "underlying U in {Mem, Phys, Overlay[..], Overlay on sub-paths} pre-populated inside and outside P (every other overlay underlying gets a further empty upper layer after the content was written, so that the content lives in lower layers only); P = 0..3 components drawn from the case's own name pool (so that children named like P occur), optionally an altroot of an altroot, or no altroot at all (backend root used directly); a plain PhysicalFS underlying is built from a RELATIVE root path ('../<dir>/jail/root') in half of the cases while its twin uses the absolute path; create sessions are now and then held open and the underlying filesystem inspected meanwhile; read handles opened before a mutating call on their file and read afterwards must deliver what a handle on P/q delivers; copies of a source whose modification time was set to 2001 must be as recent as the twin's copy; copy_file / move_file / copy_dir out of the altroot into an unrelated MemoryFS and copy_file from there into the altroot, the twin doing the same on P/q (same outcome, same other filesystem, same underlying tree); typed C01 ops whose path arguments are join()ed from hostile strings ('../'-climbs, absolute restarts, detours, backslashes, '%2e', names glued to '..', P's own name); oracles: (1) twin instance U' receives the call on P/q (q by the independent reference resolver): same outcome class/value and identical WHOLE underlying snapshots after every step, and the altroot view equals the subtree below P; and metadata(q) of every entry of the view, its root included, equal to metadata(P/q) of the underlying filesystem in type, length and all three timestamps; (2) a recorder between altroot and U: every trait call's path lies in P (exists/metadata on proper ancestors of P tolerated and counted); (3) OS jail around every PhysicalFS root (sentinel sibling, parent, cwd, '/') unchanged; non-trivial = >=1 mutating op issued through a hostile argument while content exists next to P";
 
 pub fn run(ctx: &RunCtx) -> i32 {
     ensure_cwd();
